@@ -146,7 +146,7 @@ R6 = {
  "C04": "Also: a run-time value handed to SetMaxSteps is established positive; the snapshot copier is held to the memo-before-elements clause (C04-R14).",
  "C05": "Also: the method handed to Router.Match derives from no header or query value; HTTP routes are registered in one pass.",
  "C06": "Also: the bytecode registered with a declaration is looked up under that declaration's own key.",
- "C11": "Also: the time-base advance goes through no integer division by the rate.",
+ "C11": "Also: the time-base advance goes through no integer division by the rate; C11-R10 writer/reader agreement: every window unit the parser lets through is a spelling the server's dispatch compares against (an unknown unit is a parse error).",
  "C07": "Also: the validated object is the one the defaults were filled into; the query text is percent-decoded after it is cut; type-structure walkers in closures and in cmd/glyph are held to the sibling rule.",
  "C08": "Also: builtins and index assignment write no object in place without a test against the module-level environment.",
  "C09": "Also: the snapshot copier hands a container back uncopied only when it is nil and enters it in its memo before visiting its elements.",
